@@ -16,7 +16,7 @@ RULE = ('seeded generator: non-negative images 1..40 per side of any aspect rati
         'sample and extent > 0.')
 ASSUMPTIONS = ['a reference convolution whose minimum is above -1e-12*max counts as non-negative']
 PLAN = {'quick': {'gen': 8}, 'thorough': {'gen': 16, 'tests': 1, 'docs': 1}}
-REQUIRED_BUCKETS = ['img:faint', 'img:bright', 'pixel', 'jitter', 'smear', 'shape:square', 'shape:nonsquare', 'shape:odd', 'shape:even', 'img:smooth',
+REQUIRED_BUCKETS = ['img:reduced-precision', 'angle:numpy-integer', 'img:faint', 'img:bright', 'pixel', 'jitter', 'smear', 'shape:square', 'shape:nonsquare', 'shape:odd', 'shape:even', 'img:smooth',
                     'img:spiky', 'conv:nonneg', 'extent:0', 'translate', 'units', 'sequence', 'img:integer']
 REQUIRED_ANCHORS = ['probe:pixel', 'probe:jitter', 'probe:smear']
 REQUIRED_ORACLES = ['blur:shape', 'blur>=0', 'blur=conv', 'blur:total', 'translate', 'identity', 'units', 'homogeneous']
@@ -31,7 +31,7 @@ def transfer(kind, shape, p):
         sig = p['scale'] / p['pixelscale'] * p['oversample']
         return np.exp(-2 * np.pi ** 2 * sig ** 2 * (fx ** 2 + fy ** 2))
     d = p['distance'] / p['pixelscale'] * p['oversample']
-    a = np.radians(p['angle'])
+    a = np.radians(float(p['angle']))      # (np.radians of a small NumPy integer is evaluated in half precision)
     return np.sinc(d * (fx * np.cos(a) + fy * np.sin(a)))
 
 
@@ -50,6 +50,9 @@ def bind(kind, args, kwargs):
 def make_oracle(kind):
     def oracle(ctx, args, kwargs, result, exc, pre):
         p = bind(kind, args, kwargs)
+        raw = np.asarray(p['img'])
+        # frames in half / single precision: "to rounding" means rounding at the precision of the data
+        prec = float(np.finfo(raw.dtype).eps / np.finfo(float).eps) if raw.dtype.kind == 'f' and raw.dtype.itemsize < 8 else 1.0
         img = np.asarray(p['img'], float)
         if img.ndim != 2 or img.size == 0:
             return
@@ -83,17 +86,17 @@ def make_oracle(kind):
         scale = max(float(np.max(np.abs(ref))), 1e-300)
         S = float(img.sum())
         if kind in ('jitter', 'smear') and S > 0:
-            ctx.close('blur:total', np.array([out.sum()]), np.array([S]), 1e-11, f'{kind}|total',
+            ctx.close('blur:total', np.array([out.sum()]), np.array([S]), 1e-11 * prec * (img.size if prec > 1 else 1), f'{kind}|total',
                       f'{kind} does not keep the total of a non-negative image', wit, scale=S)
         if float(ref.min()) >= -1e-12 * scale:
             ctx.bucket('conv:nonneg')
-            tol = 2 * (im + scale * img.size * im / max(S, 1e-300)) + 1e-10 * scale
+            tol = 2 * (im + scale * img.size * im / max(S, 1e-300)) + 1e-10 * scale * prec * (img.size if prec > 1 else 1)
             ctx.close('blur=conv', out, ref, 1.0, f'{kind}|value' + ('|nonsquare' if img.shape[0] != img.shape[1] else ''),
                       f'{kind} output is not the circular convolution with its analytic transfer function', dict(wit, nyquist=im),
                       scale=tol)
             ctx.close('blur:total', np.array([out.sum()]), np.array([S]), 1.0, f'{kind}|total|conv-nonneg',
                       f'{kind} does not keep the total signal although the convolution is non-negative', wit,
-                      scale=1e-10 * max(S, 1e-300) + 4 * img.size * im)
+                      scale=1e-10 * prec * (img.size if prec > 1 else 1) * max(S, 1e-300) + 4 * img.size * im)
     return oracle
 
 
@@ -138,6 +141,10 @@ def workload(ctx, lentil):
             # absolute magnitude is a matter of units (irradiance of a faint star in W, photon counts of a bright one)
             mag = int(rng.integers(-40, 31))
             img = img * 10.0 ** mag
+        if i % 11 == 5 and mag == 0:
+            # frames in half / single precision (totals beyond the largest half-precision number are ordinary)
+            img = (img * (1.0 if img.max() < 6e4 else 6e4 / img.max())).astype([np.float16, np.float32][i % 2])
+            ctx.bucket('img:reduced-precision')
         os_ = int(rng.integers(1, 7))
         ps = float(rng.uniform(2e-6, 2e-5)) if rng.random() < 0.5 else 1
         zero = rng.random() < 0.12
@@ -156,6 +163,10 @@ def workload(ctx, lentil):
             par = {'scale': sc, 'pixelscale': ps, 'oversample': os_}
         else:
             ang = float(rng.uniform(-360, 360)) if rng.random() < 0.8 else float(rng.choice([0, 90, 45, 180, -90]))
+            if i % 9 == 2:
+                # whole-degree angles handed over as NumPy integers of any width
+                ang = [np.int8, np.int16, np.uint8, np.int64][i % 4](int(rng.integers(0, 120)))
+                ctx.bucket('angle:numpy-integer')
             dist = ext / os_ * ps
             call = lambda im: lentil.smear(im, dist, angle=ang, pixelscale=ps, oversample=os_)
             par = {'distance': dist, 'angle': ang, 'pixelscale': ps, 'oversample': os_}
@@ -166,6 +177,8 @@ def workload(ctx, lentil):
                 out = call(gen.layout(rng, img))                 # online oracle decides (image in any memory layout)
         except Exception:
             continue
+        if img.dtype.kind == 'f' and img.dtype.itemsize < 8:
+            continue        # (reduced-precision frames: the online oracle above decides, at the precision of the data)
         sc_ = max(float(np.max(np.abs(out))), 1e-300)
         if zero and kind != 'pixel':
             ctx.close('identity', out, img, 1e-12, f'{kind}|identity', 'a blur of zero extent is not the identity', desc, scale=sc_)
